@@ -21,7 +21,10 @@ CLAIMED = {
           "(measured, not modelled).", "Coq proof (invariants, progress and height bound by mutual induction over the parser model) + differential correspondence + abort detection in child processes", "6/C01"),
  "C02": C("Proof (Coq), partial. Proved and re-checked against generated facts on every run: the operator table dumped from the impl equals "
           "README.md's table (+ `in`), setters are exactly the right-associative level-20 operators (C02_table, C02_fixity_sets, C02_table_wf); "
-          "binding powers separate adjacent precedences (C08_*). The grouping theorem (B) parse(unparse t) = t for the whole grammar is not yet "
+          "binding powers separate adjacent precedences (C08_*). Proved for ARBITRARY tables, operators and names by symbolic execution of the parser "
+          "model: higher precedence first and equal precedence by the first operator's associativity (C02_two_operators), prefix tighter than infix "
+          "(C02_prefix_tighter_than_infix), postfix tighter than prefix (C02_postfix_tighter_than_prefix), `x not OP y` = not(x OP y) (C02_not_infix), and the "
+          "built-in table meets their hypotheses (C02_builtins_wf). The grouping theorem (B) parse(unparse t) = t for the whole grammar is not yet "
           "ported from the prototype: grouping is decided on each run by an executable spec of the documented rules (minimal-parenthesis "
           "renderer) against impl and model: all ordered operator pairs x {plain, not} x 3 shapes exhaustively + random trees. " + TIE,
           "Coq kernel + vm_compute for the generated-fact equalities; the documented grouping rules as Python oracle (vlib/props/progs.py).",
